@@ -774,10 +774,9 @@ impl<E: Effect> Executor<E> {
         // Store the result in the process's awaiting map (retaining as it enters storage).
         if self.get_process(awaiter).is_some() {
             self.retain(&injected_result);
-            self.get_process_mut(awaiter)
-                .unwrap()
-                .awaiting
-                .insert(awaited, Some(injected_result));
+            let process = self.get_process_mut(awaiter).unwrap();
+            process.await_unanswered.remove(&awaited);
+            process.awaiting.insert(awaited, Some(injected_result));
         }
 
         // Re-queue awaiter to retry its Select instruction
@@ -885,6 +884,13 @@ impl<E: Effect> Executor<E> {
         // select that a message has already completed) would re-execute the Spawn instruction.
         if self.selecting.remove(&id) {
             self.queue.push_back(id);
+        }
+    }
+
+    /// Record that `awaited`'s state has been reported to `awaiter` as "not finished yet".
+    pub fn mark_await_answered(&mut self, awaiter: ProcessId, awaited: ProcessId) {
+        if let Some(process) = self.get_process_mut(awaiter) {
+            process.await_unanswered.remove(&awaited);
         }
     }
 
@@ -2226,6 +2232,10 @@ impl<E: Effect> Executor<E> {
             receiving: None,
         });
 
+        // Every listed process must be answered for (finished or not) before the sources are
+        // evaluated; see `handle_select`.
+        process.await_unanswered = pid_targets.iter().copied().collect();
+
         // If we found PIDs, register awaits before processing sources
         if !pid_targets.is_empty() {
             // Re-awaiting a process resets its entry; a result retained by an earlier select
@@ -2620,6 +2630,19 @@ impl<E: Effect> Executor<E> {
             if !has_select_state {
                 return self.initialize_select(pid, current_time_ms);
             }
+        }
+
+        // Phase 2b: a wake-up (a message, a co-located completion) can arrive before the initial
+        // await snapshot does. Evaluating now would treat a process that finished long ago as
+        // "not ready" and let a later-written source win, so stay parked until every listed
+        // process has been answered for.
+        let awaits_outstanding = self
+            .get_process(pid)
+            .map(|p| !p.await_unanswered.is_empty())
+            .unwrap_or(false);
+        if awaits_outstanding {
+            self.mark_selecting(pid);
+            return Ok(None);
         }
 
         // Phase 3: Ensure start time is set (lazily after awaits complete)
